@@ -395,6 +395,16 @@ func (rn *runner) enumerate(pdir string, m *reng.Model, ex *Expect, errnos map[s
 	if rn.prop == "C10" {
 		return
 	}
+	// commit point of chain-changing operations: the first rename of volume.meta.tmp over volume.meta
+	commitIdx := -1
+	if opk == "snapshot" || opk == "revert" || opk == "resize" {
+		for _, p := range pts {
+			if (p.Call.Name == "renameat" || p.Call.Name == "rename" || p.Call.Name == "renameat2") && p.Class == "volume-meta-tmp" {
+				commitIdx = p.Index
+				break
+			}
+		}
+	}
 	// (3) exactly one call fails
 	for _, p := range pts {
 		for _, en := range p.Call.Errnos() {
@@ -427,6 +437,10 @@ func (rn *runner) enumerate(pdir string, m *reng.Model, ex *Expect, errnos map[s
 				bad = "state-bad"
 			case reported == "success" && v.State != "after" && !(sameState(ex) && v.State == "before"):
 				bad = "success-without-effect"
+			case reported == "failure" && v.State == "after" && commitIdx >= 0 && p.Index <= commitIdx:
+				// the failing call precedes (or is) the commit point, the failure was reported, yet the new state is on disk:
+				// the live process keeps working on the old state while a restart would find the new one
+				bad = "failure-before-commit-left-new-state"
 			}
 			if bad != "" {
 				rn.violate(fmt.Sprintf("%s:%s:%s/%s#%d:reported-%s:%s", opk, en, p.Call.Name, p.Class, p.ClsOrd, reported, bad),
